@@ -500,7 +500,8 @@ fn gen_hist(rng: &mut Rng, tier: &str) -> Vec<(String, Value)> {
     out.push(("unreachable-ta-layout".into(), scen("ta", vec![v1(), ver(6, 6, v2objs())],
               vec![run(Some(0)), json!({"serve": 1, "unreachable": true}), run(Some(1))])));
     out.push(("nothing-served".into(), scen("child", vec![v1()], vec![run(None), run(Some(0)), run(None), json!({"serve": 0, "no_update": true})])));
-    out.push(("no-collector-empty-store".into(), scen("child", vec![v1()], vec![json!({"serve": 0, "no_update": true}), run(Some(0))])));
+    // (with the "child" layout a first run without collector would also lack the parent: the base payload is only constant once the parent is stored)
+    out.push(("no-collector-empty-store".into(), scen("ta", vec![v1()], vec![json!({"serve": 0, "no_update": true}), run(Some(0))])));
     // incomplete newer version with the engine's own random order (payload must be the stored version's, whatever the order)
     for f in ["Missing", "HashMismatch"] {
         let v2 = ver(6, 6, vec![obj("a.roa", "roa", 0, &[]), obj("c.roa", "roa", 2, &[]), obj("d.asa", "aspa", 3, &[]), obj("m.roa", "roa", 4, &[f])]);
@@ -515,7 +516,7 @@ fn gen_hist(rng: &mut Rng, tier: &str) -> Vec<(String, Value)> {
         out.push((format!("object-fault-{}", f), scen("child", vec![v1(), v2], vec![run(Some(0)), run(Some(1)), json!({"serve": 1, "no_update": true})])));
     }
     // random histories over 3 versions with random numbers/times/faults and 3-4 runs
-    let n_rand = if thorough { 200 } else { 30 };
+    let n_rand = if thorough { 200 } else { 24 };
     for _ in 0..n_rand {
         let mut versions = Vec::new();
         for i in 0..3u64 {
@@ -530,15 +531,15 @@ fn gen_hist(rng: &mut Rng, tier: &str) -> Vec<(String, Value)> {
             if rng.chance(1, 8) { v["crl_faults"] = json!([*rng.pick(&CRL_FAULTS)]); }
             versions.push(v);
         }
+        let layout = if rng.chance(1, 4) { "ta" } else { "child" };
         let mut runs = Vec::new();
-        for _ in 0..rng.range(3, 4) {
+        for i in 0..rng.range(3, 4) {
             let serve = if rng.chance(1, 10) { None } else { Some(rng.below(3) as usize) };
             let mut r = json!({"serve": serve, "stale": *rng.pick(&["reject", "reject", "warn", "accept"])});
             if rng.chance(1, 8) { r["unreachable"] = json!(true); }
-            if rng.chance(1, 10) { r["no_update"] = json!(true); }
+            if rng.chance(1, 10) && !(i == 0 && layout == "child") { r["no_update"] = json!(true); }
             runs.push(r);
         }
-        let layout = if rng.chance(1, 4) { "ta" } else { "child" };
         out.push(("random-history".into(), scen(layout, versions, runs)));
     }
     out
